@@ -1,3 +1,97 @@
 (** C13 — Package relationship fields: format and parse are inverse.
-    (theorems are being added; see Deb822/RelationProofs.v) *)
-From Verif Require Import Lib.Base Deb822.Relation Deb822.RelationSpec.
+    Only statements; every proof is [exact <lemma>].
+
+    Model: Deb822/Relation.v ([rel_str] = PkgRelation.str, [parse_relations] =
+    PkgRelation.parse_relations returning the structure and the number of warnings,
+    [match_dep] = the __dep_RE leaf); spec: Deb822/RelationSpec.v (domain [wf_rels],
+    judgement [roundtrip_ok]); proofs: Deb822/RelationProofs.v.  The same [rel_str],
+    [parse_relations], [match_dep] are the functions Deb822/RelationCheck.v compares
+    with the implementation, and [wf_rels] / [roundtrip_ok] are what its [holds]
+    evaluates on the implementation's behaviour. *)
+From Coq Require Import String.
+From Verif Require Import Lib.Base Lib.Dec Lib.PyStr Gen.PyChars
+  Deb822.Relation Deb822.RelationSpec Deb822.RelationProofs.
+
+(** 1. parse_str_inverse.  For every relationship structure of the domain — any
+       number of conjuncts, any number of alternatives, every combination of the
+       four optional parts, names / qualifiers / operators / versions /
+       architecture names / profile names of any length over their character sets,
+       any number of plain or negated architectures, any number of restriction
+       groups of any size — parsing the formatted text returns the identical
+       structure and emits no warning (and raises nothing). *)
+Theorem C13_parse_str_inverse :
+  forall rels, wf_rels rels = true -> parse_relations (rel_str rels) = Ok (rels, 0%N).
+Proof. exact parse_str_inverse. Qed.
+
+(** 2. str_parse_str.  Formatting what was parsed gives the identical string. *)
+Theorem C13_str_parse_str :
+  forall rels, wf_rels rels = true ->
+  exists rels' w, parse_relations (rel_str rels) = Ok (rels', w) /\ rel_str rels' = rel_str rels.
+Proof. exact str_parse_str. Qed.
+
+(** 3. The two together, in the form the correspondence check judges the
+       implementation by: the spec's [roundtrip_ok] holds of the model's
+       format -> parse -> format. *)
+Theorem C13_roundtrip_judgement :
+  forall rels, wf_rels rels = true -> model_roundtrip rels = true.
+Proof. exact model_roundtrip_ok. Qed.
+
+(** 4. The leaf: on every formatted atom of the domain the dependency pattern
+       matches and its named groups are exactly the parts that were written
+       (this is where each of the 2^4 combinations of optional groups is decided). *)
+Theorem C13_leaf_recognises_formatted_atom :
+  forall d, wf_rel d = true ->
+  match_dep (pp_atomic d)
+  = Some (mkGroups (r_name d) (r_archqual d) (r_version d)
+                   (option_map (fun a => join [SP] (map pp_term a)) (r_arch d))
+                   (option_map (fun r => join [SP] (map pp_group r)) (r_restr d))).
+Proof. exact match_dep_pp_atomic. Qed.
+
+(** one atom on its own: parsed back without the warning branch *)
+Theorem C13_atom_inverse :
+  forall d, wf_rel d = true -> parse_rel (pp_atomic d) = Ok (d, false).
+Proof. exact parse_rel_pp_atomic. Qed.
+
+(** Non-vacuity: a structure with three conjuncts, alternatives, every optional
+    part, a negated architecture, two restriction groups with a negated profile and
+    odd-but-valid names is in the domain; so are the five relational operators; and
+    the model formats and parses it as the theorems say. *)
+Local Open Scope string_scope.
+Example C13_nonvacuous :
+  let s (x : String.string) := Lib.Dec.dec x in
+  let plain n := mkRel (s n) None None None None in
+  let full :=
+    mkRel (s "libfoo2.0+b-x") (Some (s "any")) (Some (s ">=", s "2:1.0~rc1-3+b1"))
+          (Some [(true, s "amd64"); (false, s "hurd-i386")])
+          (Some [[(true, s "stage1"); (false, s "nocheck")]; [(true, s "cross")]]) in
+  let rels := [[plain "emacs"; plain "emacsen"]; [full];
+               [mkRel (s "g++") None (Some (s "<<", s "4")) None None;
+                mkRel (s "0ad") (Some (s "native")) None None (Some [[(false, s "nodoc")]])]] in
+  wf_rels rels = true
+  /\ forallb (forallb wf_rel) rels = true
+  /\ forallb wf_relop five_operators = true
+  /\ rel_str rels
+     = s ("emacs | emacsen, libfoo2.0+b-x:any (>= 2:1.0~rc1-3+b1) [amd64 !hurd-i386] <stage1 !nocheck> <cross>, "
+          ++ "g++ (<< 4) | 0ad:native <!nodoc>")
+  /\ parse_relations (rel_str rels) = Ok (rels, 0%N)
+  /\ model_roundtrip rels = true.
+Proof. vm_compute. repeat split. Qed.
+
+(** The side conditions of the domain are needed: outside it the round trip fails
+    in the model as it does in the code (an empty architecture list, an upper-case
+    profile, a plain architecture name that begins with the negation mark, a
+    structure without conjuncts). *)
+Example C13_domain_is_tight :
+  let s (x : String.string) := Lib.Dec.dec x in
+  let r a q := [[mkRel (s "a") None None a q]] in
+  parse_relations (rel_str (r (Some []) None)) = Ok ([[mkRel (s "a []") None None None None]], 1%N)
+  /\ parse_relations (rel_str (r None (Some [[(true, s "Stage1")]]))) = Ok (r None (Some [[(true, s "stage1")]]), 0%N)
+  /\ parse_relations (rel_str (r (Some [(true, s "!x")]) None)) = Ok (r (Some [(false, s "x")]) None, 0%N)
+  /\ parse_relations (rel_str []) = Ok ([[mkRel [] None None None None]], 1%N).
+Proof. vm_compute. repeat split. Qed.
+
+Print Assumptions C13_parse_str_inverse.
+Print Assumptions C13_str_parse_str.
+Print Assumptions C13_roundtrip_judgement.
+Print Assumptions C13_leaf_recognises_formatted_atom.
+Print Assumptions C13_atom_inverse.
